@@ -380,11 +380,17 @@ func TestVerifReplay(t *testing.T) {
 	mb, _ := json.Marshal(map[string]interface{}{"model": v.Model, "label": v.Label, "harness": h.Name})
 	os.WriteFile(modelPath, mb, 0o644)
 	env := []string{"GOFLAGS=-mod=mod", "GOPROXY=off", "VERIF_MODEL=" + modelPath, "GOTOOLCHAIN=" + eng.replayToolchain()}
-	out, err := run(meta.Dir, env, 10*time.Minute, "go", "test", "-vet=off", "-count=1", "-overlay", ovPath, "-run", "^"+testName+"$", meta.Pkg)
+	out, err := run(meta.Dir, env, 10*time.Minute, "go", "test", "-vet=off", "-count=1", "-timeout", "60s", "-overlay", ovPath, "-run", "^"+testName+"$", meta.Pkg)
 	_ = err
 	want := "VERIF-ASSERT-FAIL " + v.Label
 	if v.Kind == "panic" {
 		want = "VERIF-PANIC"
+	}
+	if strings.Contains(v.Label, "deadlock") {
+		// a predicted deadlock shows natively as a run that never finishes
+		if strings.Contains(out, "test timed out") || strings.Contains(out, "all goroutines are asleep") {
+			return true, "native go test hung as predicted (deadlock): killed by its 60 s timeout", true
+		}
 	}
 	if strings.Contains(out, want) {
 		return true, "native go test reproduced: " + want, true
